@@ -3,6 +3,7 @@ package main
 import (
 	"fmt"
 	"math"
+	"sort"
 
 	"github.com/unixpickle/model3d/model3d"
 	"verif/vlib"
@@ -45,7 +46,7 @@ func measureCheck(c *vlib.Case, api string, in *minfo, out []vlib.Tri, extra map
 
 func secSubdivideEdges(r *vlib.Run) {
 	const api = "model3d.SubdivideEdges"
-	r.Section("subdivide-edges", r.N(480, 6400), vlib.SectionOpts{}, func(c *vlib.Case) {
+	r.Section("subdivide-edges", r.N(300, 5000), vlib.SectionOpts{}, func(c *vlib.Case) {
 		rng := c.Rng
 		in := genMesh(c, rng, -1, 1500)
 		if in == nil {
@@ -162,6 +163,19 @@ func secLoop(r *vlib.Run) {
 		c.Count("calls."+api, 1)
 		c.Nontrivial(fmt.Sprintf("loop|%s|%d", in.desc, iters))
 		inputUntouched(c, api, in, extra)
+		// masks
+		im := in.im
+		var pts []C3
+		var faces [][3]int
+		tol := 1e-11 * (in.maxA + in.size)
+		for i := 0; i < iters; i++ {
+			pts, faces = loopReference(im)
+			im = &imesh{pts: pts, faces: faces}
+			if i+1 < iters && closePair3(pts, 4*tol) {
+				c.Undecided("loop-masks:intermediate level has coincident points")
+				return
+			}
+		}
 		wantV, e, f := in.topo.Vertices, in.topo.Edges, in.topo.Faces
 		for i := 0; i < iters; i++ {
 			wantV, e, f = wantV+e, 2*e+3*f, 4*f
@@ -170,15 +184,6 @@ func secLoop(r *vlib.Run) {
 		if len(out) != f {
 			c.Violationf(api+"/face-count", in.witness(extra), "%d faces, expected 4^iters*F = %d", len(out), f)
 		}
-		// masks
-		im := in.im
-		var pts []C3
-		var faces [][3]int
-		for i := 0; i < iters; i++ {
-			pts, faces = loopReference(im)
-			im = &imesh{pts: pts, faces: faces}
-		}
-		tol := 1e-11 * (in.maxA + in.size)
 		res := matchFaces(pts, faces, out, tol)
 		switch {
 		case res.undecided:
@@ -357,4 +362,21 @@ func secSubdivider(r *vlib.Run) {
 			measureCheck(c, api, in, out, extra)
 		}
 	})
+}
+
+// closePair3 reports whether two of the points are within tol of each other.
+func closePair3(pts []C3, tol float64) bool {
+	order := make([]int, len(pts))
+	for i := range order {
+		order[i] = i
+	}
+	sort.Slice(order, func(a, b int) bool { return pts[order[a]].X < pts[order[b]].X })
+	for i := range order {
+		for j := i + 1; j < len(order) && pts[order[j]].X-pts[order[i]].X <= tol; j++ {
+			if pts[order[i]].Dist(pts[order[j]]) <= tol {
+				return true
+			}
+		}
+	}
+	return false
 }
